@@ -220,6 +220,76 @@ func c13ConfirmReverse(c *Cfg, o *c13Oracle, cases []*c13Case) {
 	if len(pend) == 0 {
 		return
 	}
+	// (b0) cheapest first: with $defs / $ref in the source the CUE root is a struct that holds the
+	// definitions next to the embedded schema, and Generate adds a root-level "type":"object".
+	// If the generated schema is exact once that single spurious keyword is removed, that is the
+	// cause (oracle only, no second import needed).
+	{
+		var lines []string
+		type ref struct {
+			p   *c13RevPending
+			idx int
+			g2  string
+		}
+		var refs []ref
+		for _, p := range pend {
+			cs := p.cs
+			if !(hasKw(cs.schema, "$defs") || hasKw(cs.schema, "$ref")) {
+				continue
+			}
+			g, err := parseJV(cs.genTxt)
+			if err != nil {
+				continue
+			}
+			root, ok := g.(jobj)
+			if !ok {
+				continue
+			}
+			if t, ok := root.get("type"); !ok || t != "object" {
+				continue
+			}
+			g2 := renderJV(without(root, "type"))
+			for idx, k := range p.fail {
+				lines = append(lines, "agree "+H(cs.schemaTxt)+" "+H(g2)+" "+H(cs.instTxt[k]))
+				refs = append(refs, ref{p, idx, g2})
+			}
+		}
+		ans := o.ask(lines)
+		for i, r := range refs {
+			if ans[i] == "same" {
+				cs := r.p.cs
+				k := r.p.fail[r.idx]
+				cs.revClass[k] = "reverse-generate:definitions"
+				cs.revConfirm = append(cs.revConfirm, [3]string{cs.schemaTxt, r.g2, cs.instTxt[k]})
+				c.Count("confirmed:reverse-generate:definitions")
+			}
+		}
+		// drop what is fully explained
+		var rest []*c13RevPending
+		keep := map[*c13Case]bool{}
+		for _, p := range pend {
+			left := false
+			for _, k := range p.fail {
+				if p.cs.revClass[k] == "" {
+					left = true
+				}
+			}
+			if left {
+				rest = append(rest, p)
+				for _, a := range p.attempts {
+					keep[a.probe] = true
+				}
+			}
+		}
+		pend = rest
+		var pr []*c13Case
+		for _, x := range probes {
+			if keep[x] {
+				pr = append(pr, x)
+			}
+		}
+		probes = pr
+	}
 	c13RevEvaluate(c, o, pend, probes)
 	// (c) one keyword family deleted — only for what is still unexplained; the usual suspects
 	// first, the rest only if needed
